@@ -941,9 +941,10 @@ def _hill_compare(a, b):
             return cmp(a.symbol, b.symbol)
 
 def _hill_key(a):
-    return "".join((("0" if a.symbol in ("C", "H") else "1"),
-                    a.symbol,
-                    "%4d"%(a.isotope if isisotope(a) else 0)))
+    return (0 if a.symbol in ("C", "H") else 1,
+            a.symbol,
+            a.isotope if isisotope(a) else 0,
+            a.charge)
 
 def _convert_to_hill_notation(atoms):
     """
